@@ -22,8 +22,10 @@
 #define C10_SHA256_SSIG0(x) (C10_SHA_ROTR(x, 7) ^ C10_SHA_ROTR(x, 18) ^ C10_SHA_SHR(x, 3))
 #define C10_SHA256_SSIG1(x) (C10_SHA_ROTR(x, 17) ^ C10_SHA_ROTR(x, 19) ^ C10_SHA_SHR(x, 10))
 
-#define C10_SHA256_W(W, t) \
-  ((uint32_t)(C10_SHA256_SSIG1((W)[(t) - 2]) + (W)[(t) - 7] + C10_SHA256_SSIG0((W)[(t) - 15]) + (W)[(t) - 16]))
+/* value form: operands W_{t-2}, W_{t-7}, W_{t-15}, W_{t-16} */
+#define C10_SHA256_WV(w2, w7, w15, w16) \
+  ((uint32_t)(C10_SHA256_SSIG1(w2) + ((uint32_t)(w7)) + C10_SHA256_SSIG0(w15) + ((uint32_t)(w16))))
+#define C10_SHA256_W(W, t) C10_SHA256_WV((W)[(t) - 2], (W)[(t) - 7], (W)[(t) - 15], (W)[(t) - 16])
 #define C10_SHA256_T1(e, f, g, h, kt, wt) \
   ((uint32_t)(((uint32_t)(h)) + C10_SHA256_BSIG1(e) + C10_SHA_CH(e, f, g) + ((uint32_t)(kt)) + ((uint32_t)(wt))))
 #define C10_SHA256_T2(a, b, c) ((uint32_t)(C10_SHA256_BSIG0(a) + C10_SHA_MAJ(a, b, c)))
